@@ -49,6 +49,7 @@ type (
 		Vars   []SVar
 		Body   SExpr
 		Pats   []SExpr // optional explicit triggers
+		AltPats [][]SExpr
 	}
 	SDeref struct{ X SExpr } // *x
 	SIte   struct{ C, A, B SExpr }
@@ -255,16 +256,22 @@ func (p *sparser) expr() SExpr {
 			}
 		}
 		p.expect("::")
-		// optional triggers: {e1, e2} ::
-		if p.isOp("{") {
+		// optional triggers: {e1, e2} is one multi-pattern; several groups {..} {..} are alternatives
+		for p.isOp("{") {
 			p.next()
+			var grp []SExpr
 			for {
-				q.Pats = append(q.Pats, p.expr())
+				grp = append(grp, p.expr())
 				if !p.accept(",") {
 					break
 				}
 			}
 			p.expect("}")
+			if len(q.Pats) == 0 {
+				q.Pats = grp
+			} else {
+				q.AltPats = append(q.AltPats, grp)
+			}
 		}
 		q.Body = p.expr()
 		return q
